@@ -230,6 +230,14 @@ def gen_long_names(rng, n):
     """Names of 60..300 characters: independent ones, families that agree on their first 63/64/65 characters, unicode,
     interaction-style ('x AND y [AND z]') and relation-style (' AND_REL ') names built from long constituents."""
     names, seen = [], set()
+    if rng.random() < 0.25:              # everything right at the 64-character boundary
+        stem = _long(rng, 62, 62)
+        while len(names) < n:
+            t = (stem if rng.random() < 0.6 else _long(rng, 62, 62)) + _long(rng, 0, 4)
+            if t not in seen:
+                seen.add(t)
+                names.append(t)
+        return names
     stems = [_long(rng, 63, 63), _long(rng, 64, 64), _long(rng, 65, 65), _long(rng, 64, 64, uni=0.2)]
     while len(names) < n:
         k = rng.random()
@@ -300,10 +308,10 @@ def gen_pool_case(rng, ncpus, kind="fake"):
     cols = ["f%02d%s" % (i, _simple(rng)) for i in range(n)]
     label = rng.choice(cols)
     m = approx_ncands(cols, label, heuristic, tro)
-    cap = m if (m % ncpus) else m - 1
-    if kind == "fake" and rng.random() < 0.5:
-        cap = 64 * ncpus + rng.randint(1, m - 64 * ncpus)
-        while cap % ncpus == 0:
+    cap = m if (m % ncpus or ncpus == 1) else m - 1
+    if kind == "fake" and ncpus > 1 and rng.random() < 0.5:
+        cap = 64 * ncpus + rng.randint(1, max(1, m - 64 * ncpus))
+        if cap % ncpus == 0:
             cap -= 1
     return {"cols": cols, "label": label, "heuristic": heuristic, "tro": tro, "cap": cap, "batches": 1,
             "nrows": rng.randint(8, 30), "data_seed": rng.randint(0, 10 ** 6), "pool": {"kind": kind, "ncpus": ncpus}}
@@ -628,7 +636,7 @@ def _variants(cur):
     return variants
 
 
-def shrink(case, verdict, rounds=5):
+def shrink(case, verdict, rounds=4):
     """Greedy: drop columns / batches / rows / lower the cap while the same kind of check still rejects.  When the failure is
     visible to the Python mirror the rounds run without Coq (faster); the result is always re-judged with Coq by the caller."""
     cur = dict(case)
